@@ -72,7 +72,7 @@ class PKI:
     """root -> n intermediates -> leaf; every knob the chain-fault catalogue needs."""
 
     def __init__(self, tag="A", n_inter=0, root_cn="Forged Root", root_nb=T0 - 10 * DAY, root_na=T0 + 3650 * DAY,
-                 inter_nb=T0 - 5 * DAY, inter_na=T0 + 1000 * DAY, inter_ca=True, root_bc=True, root_ski=False):
+                 inter_nb=T0 - 5 * DAY, inter_na=T0 + 1000 * DAY, inter_ca=True, root_bc=True, root_ski=False, inter_pathlen0=False):
         self.tag = tag
         self.root_key = ec_key(f"{tag}_root")
         self.root_name = name(root_cn)
@@ -97,9 +97,10 @@ class PKI:
         for i in range(n_inter):
             k = ec_key(f"{tag}_inter{i}")
             nm = name(f"Forged Intermediate {i}")
-            ik = ("inter", tag, root_cn, i, inter_nb, inter_na, inter_ca)
+            ik = ("inter", tag, root_cn, i, inter_nb, inter_na, inter_ca, inter_pathlen0)
             if ik not in _PKI_CACHE:
-                _PKI_CACHE[ik] = make_cert(nm, issuer_name, k.public_key(), issuer_key, nb=inter_nb, na=inter_na, ca=(True if inter_ca else False), serial=5000 + i)
+                _PKI_CACHE[ik] = make_cert(nm, issuer_name, k.public_key(), issuer_key, nb=inter_nb, na=inter_na, ca=(True if inter_ca else False), serial=5000 + i,
+                                           pathlen=(0 if inter_pathlen0 and i == 0 and inter_ca else None))
             c = _PKI_CACHE[ik]
             self.inters.append(c)
             self.inter_keys.append(k)
@@ -108,8 +109,13 @@ class PKI:
 
     extra_leaf_exts = ()          # (oid text, DER value) pairs put into every leaf as unrecognised, non-critical extensions
 
+    leaf_aki_issuer_serial = False
+
     def leaf(self, subject, pubkey, nb=T0 - DAY, na=T0 + 365 * DAY, exts=(), ca=False, signer_key=None):
         exts = list(exts) + [(x509.UnrecognizedExtension(ObjectIdentifier(o), v), False) for o, v in self.extra_leaf_exts]
+        if self.leaf_aki_issuer_serial:
+            issuer_cert = self.inters[-1] if self.inters else self.root
+            exts.append((x509.AuthorityKeyIdentifier(key_identifier=None, authority_cert_issuer=[x509.DirectoryName(issuer_cert.issuer)], authority_cert_serial_number=issuer_cert.serial_number), False))
         return make_cert(subject, self.issuer_name, pubkey, signer_key or self.issuer_key, nb=nb, na=na, ca=ca, exts=exts)
 
     def chain_der(self, leaf, order="normal", with_root=False, extra=()):
@@ -303,6 +309,7 @@ def build(s):
     cdh = hashlib.sha256(cdj).digest()
     pki = PKI(tag=s.pki_tag, n_inter=s.n_inter, **k.get("pki_kw", {}))
     pki.extra_leaf_exts = tuple(k.get("leaf_extra_exts", ()))
+    pki.leaf_aki_issuer_serial = bool(k.get("leaf_aki_issuer_serial"))
     builtin = {"apple": [], "android-key": [], "android-safetynet": []}
     stmt = {}
     fmt = s.fmt
